@@ -38,7 +38,7 @@ Definition C13_error_text : Prop :=
 Definition C13_multi : Prop :=
   (forall rs, rs <> [] -> multi_data_size rs < 65536 -> split_multi (multi_data rs) = ROk rs)
   /\ (forall hdr rs reqs, length hdr = 50%nat -> bytes_ok hdr = true -> u32_at 8 hdr = Some 0 ->
-        (exists s, nth_error hdr 46 = Some s /\ 128 <= s) ->
+        (exists s, nth_error hdr 46 = Some s /\ 128 <= s) -> nth_error hdr 49 = Some 0 ->
         rs <> [] -> multi_data_size rs < 65536 -> bytes_ok (multi_data rs) = true ->
         parse_multi reqs (hdr ++ multi_data rs) = (parse_unit (hdr ++ multi_data rs), zip_sub rs reqs))
   /\ (forall v d, bytes_ok d = true -> is_valid KUnit (s_r (sub_response (SWrite v) d)) = sub_success d)
@@ -77,18 +77,16 @@ Definition C13_success_backed : Prop :=
 (* 4c. a well-formed error reply (header-only encapsulation error included; for a multi-service
        request: an error reply without service data) gives falsy results with a non-empty error
        text — not an exception, not a success *)
-Definition C13_wf_errors_falsy (guard : call -> bytes -> bool) : Prop :=
+Definition C13_wf_errors_falsy : Prop :=
   forall c k raw rest, reply_kind c = Some k -> bytes_ok raw = true -> wf_error_for c k raw = true ->
-    guard c raw = false -> all_falsy_with_text (run_call c (raw :: rest)).
-
-Definition no_guard2 {A B} (_ : A) (_ : B) : bool := false.
+    all_falsy_with_text (run_call c (raw :: rest)).
 
 Definition C13_full : Prop :=
   C13_classification /\ C13_error_text /\ C13_multi
-  /\ C13_library_only /\ C13_success_backed /\ C13_wf_errors_falsy no_guard2.
+  /\ C13_library_only /\ C13_success_backed /\ C13_wf_errors_falsy.
 
-(* Everything but one input class of 4c holds without a guard on the code as it is now (after the
-   fix commits aa378e8 and 3c1cf16; DESIGN.md F11 and relatives are gone). *)
+(* All of it holds, without a guard, on the code as it is now (after the fix commits aa378e8, 3c1cf16
+   and 8164fd0; DESIGN.md F11 and relatives are gone). *)
 Theorem C13_classification_holds : C13_classification.
 Proof. split; [exact unit_valid_iff|split; [exact rr_valid_iff|split; [exact register_valid_iff|exact base_valid_iff]]]. Qed.
 Theorem C13_error_text_holds : C13_error_text.
@@ -115,35 +113,19 @@ Print Assumptions C13_multi_holds.
 Print Assumptions C13_library_only_holds.
 Print Assumptions C13_success_backed_holds.
 
-(* What the code still does: a multi-service request rejected with a general status and TWO (or more)
-   additional-status words — MultiServiceResponsePacket reads the additional status itself as reply
-   count and offset table (the data is taken at offset 50 whatever the additional-status size):
-   w_ext2 = status 5, additional status 0x0080 0x0000 makes the first write "succeed". *)
-Theorem C13_full_refuted : ~ C13_full.
-Proof.
-  intros (_ & _ & _ & _ & _ & H). destruct wit_ext2 as [Hw (e & Hr)].
-  assert (Hok : bytes_ok w_ext2 = true) by apply wit_ok.
-  destruct (H (CMulti two_writes) KUnit w_ext2 [] eq_refl Hok Hw eq_refl) as (tags & Ht & _ & Hf).
-  rewrite Hr in Ht. injection Ht as <-. inversion Hf as [|? ? [Hfalsy _] _]. discriminate Hfalsy.
-Qed.
-Print Assumptions C13_full_refuted.
+Theorem C13_wf_errors_falsy_holds : C13_wf_errors_falsy.
+Proof. exact wf_errors_falsy. Qed.
+Print Assumptions C13_wf_errors_falsy_holds.
 
-(* the excluded input class: a multi-service call answered by a reply with encapsulation status 0
-   that announces two or more additional-status words *)
-Definition C13_guard (c : call) (raw : bytes) : bool :=
-  match c with CMulti _ => multi_ext_guard raw | _ => false end.
-
-Theorem C13_guarded :
-  C13_classification /\ C13_error_text /\ C13_multi
-  /\ C13_library_only /\ C13_success_backed /\ C13_wf_errors_falsy C13_guard.
+Theorem C13_holds : C13_full.
 Proof.
   split; [exact C13_classification_holds|split; [exact C13_error_text_holds|split; [exact C13_multi_holds|]]].
-  split; [exact C13_library_only_holds|split; [exact C13_success_backed_holds|exact wf_errors_guarded]].
+  split; [exact C13_library_only_holds|split; [exact C13_success_backed_holds|exact C13_wf_errors_falsy_holds]].
 Qed.
-Print Assumptions C13_guarded.
+Print Assumptions C13_holds.
 
 (* non-vacuity: a Read Tag success, a Read Tag error with extended status, a mixed multi-service
-   reply, and the four formerly failing replies go through the hypotheses with the expected results *)
+   reply, and the formerly failing replies go through the hypotheses with the expected results *)
 Example C13_nonvacuous :
   run_call (CRead dint_dec) [w_read] = ROk (OTags [{| t_value := Some (VInt 42); t_error := None |}])
   /\ spec_success true unit_layout w_read = true
@@ -154,10 +136,10 @@ Example C13_nonvacuous :
                 = ROk (OTags [{| t_value := Some (VInt 7); t_error := None |}; {| t_value := None; t_error := Some e |}])
                 /\ names_status service_status extend_codes 5 (Some 0) e = true)
   /\ multi_sub_success w_mixed 0 = true /\ multi_sub_success w_mixed 1 = false
-  /\ wf_error_for (CMulti two_reads) KUnit w_toperr = true /\ C13_guard (CMulti two_reads) w_toperr = false
-  /\ wf_error_for (CMulti two_reads) KUnit w_hdr = true /\ C13_guard (CMulti two_reads) w_hdr = false
+  /\ wf_error_for (CMulti two_reads) KUnit w_toperr = true
+  /\ wf_error_for (CMulti two_reads) KUnit w_hdr = true
   /\ wf_error_for (CReadFrag dint_dec) KUnit w_hdr = true
-  /\ C13_guard (CMulti two_writes) w_ext2 = true.
+  /\ wf_error_for (CMulti two_writes) KUnit w_ext2 = true.
 Proof. vm_compute. repeat split; try reflexivity; eexists; split; reflexivity. Qed.
 
 (* the formerly failing replies (corpus/C13), on the fixed code *)
@@ -167,5 +149,8 @@ Example C13_fixed_witnesses :
   /\ run_call (CReadFrag dint_dec) [w_hdr] = ROk (OTags [{| t_value := None; t_error := Some fragments_failed |}])
   /\ (exists e, run_call (CMulti two_reads) [w_toperr] = ROk (OTags [{| t_value := None; t_error := Some e |}; {| t_value := None; t_error := Some e |}])
                 /\ names_status service_status extend_codes 8 None e = true)
-  /\ (exists e, run_call (CMulti two_reads) [w_encap] = ROk (OTags [{| t_value := None; t_error := Some e |}; {| t_value := None; t_error := Some e |}])).
-Proof. split; [exact wit_fixed_count0|split; [exact wit_fixed_frag_hdr|split; [exact wit_fixed_toperr|exact wit_fixed_encap]]]. Qed.
+  /\ (exists e, run_call (CMulti two_reads) [w_encap] = ROk (OTags [{| t_value := None; t_error := Some e |}; {| t_value := None; t_error := Some e |}]))
+  /\ (exists e, run_call (CMulti two_writes) [w_ext2]
+                = ROk (OTags [{| t_value := Some (VInt 1); t_error := Some e |}; {| t_value := Some (VInt 2); t_error := Some e |}])
+                /\ names_status service_status extend_codes 5 None e = true).
+Proof. split; [exact wit_fixed_count0|split; [exact wit_fixed_frag_hdr|split; [exact wit_fixed_toperr|split; [exact wit_fixed_encap|exact (proj2 wit_fixed_ext2)]]]]. Qed.
